@@ -639,6 +639,21 @@ def run(ctx):
                       signature="harness", failing_input=False)
         return
 
+    race_rows = []
+    if ctx.thorough:
+        # the retention streams again under the race detector (8 goroutines, disjoint streams)
+        for uid, pkg, files, test, kw in (("tlvrace", "tlv", H_TLV, "^TestVerifTlv$", {"moddir": "tlv"}),
+                                          ("wirerace", "lnwire", H_WIRE, "^TestVerifWire$", {})):
+            rcr, trr, outr = run_harness(ctx.uid(uid), pkg, files, test, env={"VERIF_RETAIN_ONLY": "1"},
+                                         timeout=2400, race=True, **kw)
+            rr = [r for r in read_jsonl(trr) if r["k"] in ("retain", "retain_sum")]
+            race_rows += rr
+            if rcr != 0 or not rr:
+                ctx.violation("impl_violates_predicate" if "DATA RACE" in outr else "harness_failed",
+                              "C10_fixpoint (purity of the real codec: -race retention run)",
+                              {"log": outr[-6000:]}, signature="C10 data race / race run " + pkg,
+                              failing_input=False)
+
     hist = collections.Counter()
     nviol = collections.Counter()
 
@@ -647,7 +662,8 @@ def run(ctx):
         nviol[key] += 1
         if nviol[key] > 2:
             return
-        small = {k: (v if not isinstance(v, str) or len(v) < 4000 else v[:4000] + "…")
+        small = {k: (v if not isinstance(v, str) or len(v) < 4000 or (r["k"] == "retain" and k == "b")
+                     else v[:4000] + "…")
                  for k, v in r.items()}
         ctx.violation("impl_violates_predicate", theorem, {"case": small, "fails": fails},
                       signature=sig or ("C10 %s %s" % (r["k"], fails[0])))
@@ -665,6 +681,11 @@ def run(ctx):
             f = pred_varwrite(r)
             if f:
                 report("C10_bigsize_roundtrip", r, f, None)
+        elif k == "retain":
+            report("C10_tlv_decode_encode_id", r,
+                   ["%s (tlv %s stream): %s" % (r["kind"], r["stream"], r.get("detail", ""))], None)
+        elif k == "retain_sum":
+            pass
         else:
             hist["stream:%s:%s:%d" % ("p2p" if r["p2p"] else "nonp2p", r["mut"], r["code"])] += 1
             f, sig = pred_stream(r)
@@ -683,11 +704,22 @@ def run(ctx):
             f = pred_val(r)
             if f:
                 report("C10_layout_roundtrip", r, f, None)
+        elif k == "retain":
+            # purity of the real codec (the Coq model is a pure function: this is tested, not
+            # proved): victim `b`, the later inputs after which it changed in `culprits`
+            report("C10_fixpoint", r, ["%s (%s stream): %s" % (r["kind"], r["stream"], r.get("detail", ""))],
+                   None)
+
+    for r in race_rows:
+        if r["k"] == "retain":
+            report("C10_fixpoint", r, ["%s (%s stream, -race run): %s" % (r["kind"], r["stream"],
+                                                                        r.get("detail", ""))], None)
 
     # ---- correspondence: the model evaluated on the same inputs ----
     gen = load_gen_fields()
     mrows = prepare_model_rows(wrows, gen)
-    crow = [r for r in rows if len(r.get("b", "")) <= 2 * MAX_COQ_BYTES]
+    crow = [r for r in rows if len(r.get("b", "")) <= 2 * MAX_COQ_BYTES
+            and r["k"] not in ("retain", "retain_sum")]
     crow += [r for r in mrows
              if len(r.get("b", "") or r.get("out", "")) <= 2 * coq_cap(r)]
     frows = failure_model_rows(wrows, load_gen_failures())
@@ -760,6 +792,8 @@ def run(ctx):
         "samples": [rows[0], {k: v for k, v in wrows[0].items() if k != "b"}],
         "correspondence_mismatches": len(bad),
         "directed_search": directed,
+        "retention": [r for r in rows + wrows if r["k"] == "retain_sum"],
+        "retention_race_run": [r for r in race_rows if r["k"] == "retain_sum"],
         "sweep_cases": {str(r["t"]): [r["rec"], r["fix"], r["val"], r["accepted"], r["bad"]]
                         for r in wrows if r["k"] == "sweep"},
         "sweep_total": {k: sum(r[k] for r in wrows if r["k"] == "sweep")
